@@ -454,7 +454,7 @@ def cli_conformance(st, sym):
     o = world.cli("update", "--patch", "--no-fetch")
     st.evaluations += 1
     tree = world.read_tree(".")
-    after, gafter = tree.get("f.txt", b"").decode(), tree.get("g.txt", b"").decode()
+    after, gafter = tree.get("f.txt", b"").decode("utf-8", "replace"), tree.get("g.txt", b"").decode("utf-8", "replace")
     st.observe((sym, "update", o.exit, o.crashed, after, gafter))
     if o.exit != 0 or after != fwant or gafter != gwant:
         which = "f.txt" if (o.exit != 0 or after != fwant) else "g.txt"
@@ -479,7 +479,7 @@ def cli_conformance(st, sym):
         o = world.cli("update", "--patch", "--no-fetch")
         st.evaluations += 1
         tree = world.read_tree(".")
-        got = {"f.txt": tree.get("f.txt", b"").decode(), "g.txt": tree.get("g.txt", b"").decode()}
+        got = {"f.txt": tree.get("f.txt", b"").decode("utf-8", "replace"), "g.txt": tree.get("g.txt", b"").decode("utf-8", "replace")}
         exp = {"f.txt": fwant if ("f.txt", fpat) in ents else fbody, "g.txt": gwant if ("g.txt", gpat) in ents else gbody}
         st.observe((sym, "update-ini", o.exit, o.crashed, sorted(got.items())))
         if o.exit != 0 or got != exp:
